@@ -127,6 +127,25 @@ CHECKS["C16"] = (True, TV, "differential translation validation: program linked 
     "two unrelated modules, duplicate functions/globals are rejected in either order. Then the linked program and the single-module build run on the real VM on the same symbolic inputs; z3 decides per joint path that they agree.",
     "Trusts z3, the proxy model, pickle. Cyclic imports, more than four modules and importer access to imported globals are outside.", "DESIGN.md 5 (C16)")
 
+CHECKS["C15"] = (True, MC, "bounded symbolic execution of host-operation histories on two real VMs from an arbitrary symbolic state against the reference state machine (symx + z3): one inductive step for every operation plus short histories; object-identity and program-fingerprint gates",
+    "Seven state programs (scalar, array, 2-D array, vector/matrix, struct globals; recursion with global counters; locals of every kind). Both VMs created from one linked program start with every global set to "
+    "arbitrary symbolic values of its type; histories of SetGlobal / Invoke operations with symbolic payloads (every single operation = one inductive step from any state; all pairs on one VM and across the two VMs; "
+    "sampled triples, in thorough also quadruples) run on the real VMs and on the reference state machine (O1 with persistent globals, one per VM); all globals of both VMs are observed after every step. "
+    "z3 decides per joint path that every return value and observed global equals the reference's. Gates: no container object shared between globals or VMs after the history; Program listing and constants unchanged.",
+    "Trusts z3, the proxy model, the reference interpreter. Histories longer than 4 are covered only through the inductive step (the invariant - no sharing, program unchanged - is checked, its sufficiency is a paper argument).", "DESIGN.md 5 (C15)")
+
+CHECKS["C07"] = (True, MC, "symbolic execution of the real wasm generator and writer on IR with symbolic 32-bit constants; the emitted byte string (symbolic bytes) is decoded and validated by a reference WebAssembly 1.0 decoder/validator inside the same exploration (symx + z3); counterexamples confirmed with wasmtime",
+    "For every member of the wasm families (all expressions of depth <= 2 and sampled depth 3 over + - * / == < > on int and float parameters and constants; every parameter list of 0-4 int/float parameters "
+    "with int / float / void results and mixed-type temporaries; 2-4 functions in many orders; a long export name; programs outside the translatable subset) the real GenerateWasm pass and Module.WriteTo run on IR whose "
+    "integer constants are symbolic over [-2^31, 2^31). The reference decoder checks preamble, section order and exact section / body sizes, type / function / export / local indices and type-checks every body; its "
+    "branches on symbolic bytes (LEB128 continuation bits) fork through the engine, so each path covers all constants with those encodings. Every path ends in a reported error or in a module valid for all values of the path.",
+    "Trusts z3, the proxy model, the reference validator vlib/wasmref.py (cross-checked with wasmtime on hand-assembled valid and invalid modules on every run and on every counterexample).", "DESIGN.md 5 (C07)")
+CHECKS["C06"] = (True, TV, "translation validation per program: the exported function of the emitted binary, evaluated by a reference WebAssembly evaluator on symbolic arguments and constants, vs the real VM on the same IR (symx + z3); per-instruction emission gate; replay through wasmtime",
+    "Same pipeline as C07; in addition the reference evaluator runs the exported function on symbolic arguments and the real VM runs the same IR (same symbolic constants). z3 decides per joint path that no "
+    "argument / constant values make the results differ (i32 exactly, on the domain where no intermediate leaves the 32-bit range; f32 as reals). Gate per path: every IR instruction the backend visited produced at "
+    "least one wasm instruction or an error was reported (never silently dropped). Programs outside the translatable subset must be refused with an error or translated correctly.",
+    "Trusts z3, the proxy model, the reference evaluator (every counterexample is replayed through Compiler().Compile(src, {'wasm': True}) and wasmtime). Single-precision rounding and traps other than division by zero are outside.", "DESIGN.md 5 (C06)")
+
 NOT_YET = "check not built yet in this round (see DESIGN.md status); nothing is claimed"
 NA = {
     "C18": "quantifies over hash seeds, processes and compilation histories: none of these is a value flowing through the code, so there is no assertion over symbolic variables for a solver to decide (DESIGN.md section 6)",
